@@ -229,7 +229,12 @@ def run(ctx, chk):
         tys = set()
         for ob, bb, t, fn in common.reachable_calls(fb, b):
             if fn['path'].startswith('std::ptr::') and fn['path'].endswith(want) and fn.get('targs'):
-                tys.add(ob.crate.tystr(fn['targs'][0]))
+                tt = ob.crate.types[fn['targs'][0]]
+                if tt.get('k') == 'param':
+                    # inside a generic helper (`read_consistent<G, T>`): the types it is instantiated with
+                    tys |= common.concrete_type_args(fb, ob, tt['s']) or {tt['s']}
+                else:
+                    tys.add(ob.crate.tystr(fn['targs'][0]))
                 chk.analysed['call_sites'] += 1
         if len(tys) == 1:
             ptr_tys[side] = tys.pop()
